@@ -125,7 +125,7 @@ def has_put(codes):
 
 
 GROUPS = {"quick": [["esc", "dol1", "mix"], ["til", "dol2", "pg", "call"]],          # balanced by number of inputs per tier
-          "thorough": [["mix", "dol2", "call"], ["esc", "dol1", "til", "pg"]]}
+          "thorough": [["esc", "dol1", "mix"], ["til", "dol2", "pg", "call"]]}
 
 
 def split_cfgs(ctx, cfg):
